@@ -11,7 +11,7 @@ from checkconf import CHECKS  # noqa: E402
 
 TEXT = {
     "C01": ("reference model + differential (Go regexp) property-based testing",
-            "A small-scope exhaustive enumeration (4 891 programs x 34 texts; thorough: 126 765 programs), generated (program, text) pairs, and a scale part (kB texts, hundreds of matches, loop minima up to 100, a third searched as files), compared with an independent continuation-passing reference matcher and with Go's regexp on the regular subset; exploration, not proof.",
+            "A small-scope exhaustive enumeration (4 891 programs x 34 texts; thorough: 126 765 programs), generated (program, text) pairs, and a an enumeration of named loops with minima against the unnamed form; scale part (kB texts, hundreds of matches, loop minima up to 100, a third searched as files), compared with an independent continuation-passing reference matcher and with Go's regexp on the regular subset; exploration, not proof.",
             "trusts the reference semantics of DESIGN.md section 4 (caseless = Unicode simple folding over the literal's byte length, as observed) and Go's regexp; generated programs have IR depth <= 3 on texts <= 14 bytes, the scale part uses 15 fixed bodies"),
     "C02": ("reference model property-based testing of variable bindings",
             "Generated programs biased to captures under alternation / optional loops / calls; the environment of the reference matcher at the successful continuation is compared with Match.Variables.",
